@@ -463,10 +463,11 @@ func TestC14_CLI(t *testing.T) {
 	data = nil
 	runs := EnvInt("CLIRUNS", 2)
 	for i := 0; i < runs; i++ {
-		k := i % 3 // requests in flight at SIGINT
-		c := map[string]any{"run": i, "inFlight": k}
-		res := c14CLIRun(ps, keys, k, i)
-		res.Class = fmt.Sprintf("cli/inflight=%d", k)
+		k := i % 3         // requests in flight at SIGINT
+		double := i%2 == 1 // a second SIGINT arrives while an accepted request (body half uploaded) is still being served
+		c := map[string]any{"run": i, "inFlight": k, "secondSigint": double}
+		res := c14CLIRun(ps, keys, k, i, double)
+		res.Class = fmt.Sprintf("cli/inflight=%d/second-sigint=%v", k, double)
 		if msg := handle(col, "C14", "TestC14_CLI", c, res); msg != "" {
 			fmt.Printf("VIOLATION property=C14 replay=%s\n", replayPath("C14", "TestC14_CLI"))
 			t.Fatal(msg)
@@ -474,7 +475,7 @@ func TestC14_CLI(t *testing.T) {
 	}
 }
 
-func c14CLIRun(ps *prover.ProvingSystem, keys string, k, salt int) Result {
+func c14CLIRun(ps *prover.ProvingSystem, keys string, k, salt int, double bool) Result {
 	pa, ma := freeAddr(), freeAddr()
 	cmd := exec.Command(cliPath(), "start", "--mode", "deletion", "--keys-file", keys, "--prover-address", pa, "--metrics-address", ma)
 	logf, _ := os.CreateTemp(filepath.Dir(keys), "start-*.log")
@@ -532,7 +533,40 @@ func c14CLIRun(ps *prover.ProvingSystem, keys string, k, salt int) Result {
 			time.Sleep(time.Millisecond)
 		}
 	}
+	var slow *slowUpload
+	var slowM *mParams
+	if double {
+		slowM = fixedValidParams("deletion", 300+salt)
+		var err error
+		if slow, err = startSlowUpload(pa, genReq{Method: "POST", Body: slowM.writeDoc(styleHexLower)}); err != nil {
+			cmd.Process.Kill()
+			return bad("cli", "harness:slow-upload", "%v", err)
+		}
+		defer slow.close()
+		dl := time.Now().Add(20 * time.Second)
+		for time.Now().Before(dl) {
+			if sc := ts.scrape(5 * time.Second); sc.HasGauge && int(sc.InFlight) >= k+1 {
+				break
+			}
+			time.Sleep(time.Millisecond)
+		}
+	}
 	cmd.Process.Signal(syscall.SIGINT)
+	if double {
+		// the stop has been requested; the operator (or a supervisor) repeats the signal while the server drains
+		time.Sleep(200 * time.Millisecond)
+		cmd.Process.Signal(syscall.SIGINT)
+		time.Sleep(300 * time.Millisecond)
+		res := slow.finish(120 * time.Second)
+		if res.Err != "" {
+			cmd.Process.Kill()
+			return bad("cli", "shutdown:in-flight-request-dropped", "CLI server: a request accepted before SIGINT got no complete response after a second SIGINT during the drain: %s", res.Err)
+		}
+		if res.Status != 200 || proofVerifies(ps, res.Body, slowM.InputHash) != nil {
+			cmd.Process.Kill()
+			return bad("cli", "shutdown:in-flight-request-failed", "CLI server: slow request answered %d after a second SIGINT", res.Status)
+		}
+	}
 	var werr error
 	select {
 	case werr = <-exited:
